@@ -23,6 +23,8 @@ def creds (s : S) : Option Bytes × Option Bytes := (s.l.token, s.l.key)
 @[simp] theorem creds_flush (s : S) : creds (flush s) = creds s := creds_softConn _ _
 @[simp] theorem creds_opAccept (s : S) (lk : Bytes) (e : Nat) : creds (opAccept s lk e) = creds s := by
   unfold opAccept; split <;> rfl
+@[simp] theorem creds_opForget (s : S) : creds (opForget s) = creds s := by
+  unfold opForget; split <;> rfl
 @[simp] theorem creds_opDisconnect (s : S) : creds (opDisconnect s) = creds s := by
   unfold opDisconnect; split <;> rfl
 @[simp] theorem creds_opConnected (s : S) : creds (opConnected s) = creds s := rfl
@@ -112,7 +114,7 @@ theorem creds_protoAuthenticate {p : Params} {rx : Reactions} {s s' : S} {token 
       · cases h; simp
       · cases h; simp
       · rename_i s1 hw
-        have h1 : creds s1 = creds s := by rw [creds_opWriteHS hw, creds_flush]
+        have h1 : creds s1 = creds s := by rw [creds_opWriteHS hw, creds_opForget, creds_flush]
         split at h
         · rename_i s2 hq
           simp only [Prod.mk.injEq] at h
